@@ -409,8 +409,8 @@ def check(run, prog, tier):
                         popped = True
             ok = guarded or popped
             reserved = None
-            if not ok and f.static:
-                # a static helper whose every call site is dominated, in the caller, by a stack-space check: the caller
+            if not ok:
+                # a helper (file-local or not: the call graph is whole-program) whose every call site is dominated, in the caller, by a stack-space check: the caller
                 # reserved the slots up front (it cannot raise at this point); that the stack is balanced between the
                 # reservation and the call is not decided here
                 if C01F_CG[0] is None:
